@@ -126,6 +126,26 @@ func DecisionSignature(v string, w *ref.World, o, r string, reqctx *int) string 
 		return v + "/unevaluable-tuple-with-evaluable-sibling"
 	case v == "V4-spurious-failure" && UnevaluableUnreached(w, o, r, reqctx):
 		return v + "/unevaluable-condition-on-unreached-tuple"
+	case v != "V4-spurious-failure" && SameObjectRowMasked(w, reqctx):
+		return v + "/row-of-the-same-object-masked-before-filtering"
 	}
 	return v
+}
+
+// SameObjectRowMasked: two stored tuples share (object, relation) - e.g. a direct user and the typed
+// wildcard - and one of them does not pass the validity / condition filter under the request context.
+// The sorted (object-ordered) read used by the weight-2 fast path returns one row per object and
+// applies the filters afterwards, so the row that passes can be masked by the one that does not.
+func SameObjectRowMasked(w *ref.World, reqctx *int) bool {
+	for i, t := range w.Tuples {
+		for j, t2 := range w.Tuples {
+			if i == j || t.Obj != t2.Obj || t.Rel != t2.Rel || t.User == t2.User {
+				continue
+			}
+			if !w.Valid(t) || ref.CondVal(t, reqctx) != ref.T {
+				return true
+			}
+		}
+	}
+	return false
 }
